@@ -78,6 +78,7 @@ def run(repo, rep, tier):
     r6 = rep.rule('C12.R6', 'propagated / class_origin / qualifier flavor '
                   'bookkeeping of the class resolver')
     redeclared_flavors(repo, rep)
+    flavor_default_rule(repo, rep)
     inheritance_marks(repo, rep, r6)
 
     mp = repo.cls(MAIN, 'MainProvider')
@@ -599,3 +600,95 @@ def redeclared_flavors(repo, rep):
     if r7.sites < 3:
         raise AnalysisError('_resolve_qualifiers: only %d paths with a '
                             'redeclared qualifier' % r7.sites)
+
+
+def tristate_attrs(repo):
+    """names of object-model attributes that hold None / True / False:
+    attributes whose setter stores _ensure_bool(value)"""
+    out = set()
+    for c in repo.module('pywbem/_cim_obj.py').classes.values():
+        for f in c.node.body:
+            if not isinstance(f, ast.FunctionDef):
+                continue
+            if any(isinstance(d, ast.Attribute) and d.attr == 'setter'
+                   for d in f.decorator_list):
+                if any(isinstance(x, ast.Call) and
+                       dotted(x.func) == '_ensure_bool'
+                       for x in ast.walk(f)):
+                    out.add(f.name)
+    return out
+
+
+def flavor_default_rule(repo, rep):
+    """C12.R8: a tri-state attribute (None = not specified, True, False) is
+    given its default only where it is None.  `if not q.tosubclass:
+    q.tosubclass = <declaration>` overwrites an explicit False (Restricted,
+    DisableOverride) with the declaration's True, so the qualifier then
+    propagates against its flavor."""
+    r8 = rep.rule('C12.R8', 'tri-state flavor attributes are defaulted only '
+                  'where they are None')
+    tri = tristate_attrs(repo)
+    if len(tri) < 4:
+        raise AnalysisError('tri-state attributes not found: %s' % tri)
+    sites = 0
+    for rel, m in sorted(repo.modules.items()):
+        for f in m.all_funcs():
+            for st in walk_no_nested(f.node):
+                if not isinstance(st, ast.If):
+                    continue
+                # a test of the attribute (any form) whose branch assigns it
+                tested = [x for x in ast.walk(st.test)
+                          if isinstance(x, ast.Attribute) and x.attr in tri
+                          and isinstance(x.ctx, ast.Load)]
+                for x in tested:
+                    tx = norm(x)
+                    assigns = [a for b in st.body + st.orelse
+                               for a in ast.walk(b)
+                               if isinstance(a, ast.Assign) and
+                               any(norm(t) == tx for t in a.targets)]
+                    if not assigns:
+                        continue
+                    sites += 1
+                    r8.sites += 1
+                    r8.functions.add(f.fq)
+                    # the attribute occurs in the test only as `x is None`
+                    # / `x is not None`
+                    ok = True
+                    for c in ast.walk(st.test):
+                        if isinstance(c, ast.Compare) and \
+                                norm(c.left) == tx and len(c.ops) == 1 and \
+                                isinstance(c.ops[0], (ast.Is, ast.IsNot)) and \
+                                isinstance(c.comparators[0], ast.Constant) \
+                                and c.comparators[0].value is None:
+                            continue
+                    # any occurrence that is not the left side of such a
+                    # comparison is a truthiness / value use
+                    parents = {}
+                    for c in ast.walk(st.test):
+                        for ch in ast.iter_child_nodes(c):
+                            parents[id(ch)] = c
+                    for occ in [y for y in ast.walk(st.test)
+                                if isinstance(y, ast.Attribute) and
+                                norm(y) == tx]:
+                        par = parents.get(id(occ))
+                        if not (isinstance(par, ast.Compare) and
+                                par.left is occ and len(par.ops) == 1 and
+                                isinstance(par.ops[0], (ast.Is, ast.IsNot))
+                                and isinstance(par.comparators[0],
+                                               ast.Constant) and
+                                par.comparators[0].value is None):
+                            ok = False
+                    r8.ob(ok, '%s|%s' % (f.qualname, norm(st.test, 60)))
+                    if not ok:
+                        rep.finding(
+                            r8, f.qualname, norm(st.test, 60),
+                            'truthiness-of-flavor', m.relpath, st.lineno,
+                            '%s is None/True/False, and it is (re)assigned '
+                            'under a test of its truth value: an explicit '
+                            'False (Restricted / DisableOverride / not '
+                            'translatable) is replaced by the default, so '
+                            'GetClass reports the wrong flavor and the '
+                            'qualifier is propagated or overridable against '
+                            'its declaration on the element' % tx)
+    if sites < 3:
+        raise AnalysisError('C12.R8: only %d defaulting sites found' % sites)
